@@ -232,6 +232,11 @@ pub fn check(c: &Case) -> Verdict {
         return v;
     }
     let in_range = fault_h.map(|h| h >= s && h <= e).unwrap_or(false);
+    if kind == Some(FaultKind::Relinked) && !in_range {
+        // the re-mined predecessor may lie inside the range while the re-pointed block does not: that run processes a
+        // consistent chain whose block h-1 simply is another block than the model's - nothing to decide here
+        return Verdict::Pass(Pass::default());
+    }
     let ntx_max = built.blocks.iter().filter(|(h, _)| *h >= s && *h <= e).map(|(_, b)| b.txs.len()).max().unwrap_or(0);
     let shape = match ntx_max { 0..=1 => "1", 2 => "2", 3..=8 => "3-8", x if x.is_power_of_two() => "2^k", x if (x + 1).is_power_of_two() || (x - 1).is_power_of_two() => "2^k+-1", _ => "other" };
     let mut classes = vec![format!("coin={}", coin.cli()), format!("shape={}", shape), format!("start={}", if s == 0 { "0" } else { ">0" })];
@@ -313,12 +318,22 @@ fn run(eng: &Engine, a: &Args) {
     eng.explore("faults", scaled(nf, a), move || strategy(tier, true), check);
     // every bit of the LAST block of a two-block chain (a flipped length or count there makes the parser run
     // into the end of the blk file): a coinbase-only block in the quick tier, a three-transaction block in the thorough tier
+    // a block with 65 537 transactions (a merkle tree of depth 17, transaction count in the five-byte CompactSize form)
+    // between two small blocks, verified from height 1 and dumped by two callbacks
+    let scripts: Vec<Vec<u8>> = (0..65_540usize).map(|i| vec![0x51 + (i % 16) as u8, 0x75, (i & 0x7f) as u8 | 0x80]).collect();
+    let mut wide = vpmodel::spec::chain_from_scripts(Coin::Bitcoin, &scripts, &[3, 900, 0], 1, 65_536, 0, 1_400_000_000);
+    wide.real_genesis = true;
+    let mut deep = Vec::new();
+    for (cb, start) in [(Callback::CsvDump, 0u16), (Callback::SimpleStats, 40_000u16)] {
+        deep.push(Case { chain: wide.clone(), start, end: None, fault: None, cb });
+    }
+    eng.enumerate("merkle-tree-of-depth-17", deep, check);
     eng.enumerate("every-bit-of-one-block", all_flips(a.seed, if a.tier == Tier::Thorough { 2 } else { 0 }), check);
 }
 
 fn replay(part: &str, case: serde_json::Value) -> Option<Verdict> {
     match part {
-        "complete" | "faults" | "every-bit-of-one-block" => Some(check(&serde_json::from_value(case).ok()?)),
+        "complete" | "faults" | "every-bit-of-one-block" | "merkle-tree-of-depth-17" => Some(check(&serde_json::from_value(case).ok()?)),
         _ => None,
     }
 }
